@@ -944,6 +944,8 @@ EGLPNUM_TYPENAME_QSLIB_INTERFACE int EGLPNUM_TYPENAME_QSadd_cols (
 	rval = EGLPNUM_TYPENAME_ILLlib_addcols (p->lp, p->basis, num, cmatcnt, cmatbeg,
 												 cmatind, cmatval, obj, lower, upper, names,
 												 p->factorok);
+	if (rval)
+		p->factorok = 0;						/* columns may have been added and removed again */
 	CHECKRVALG (rval, CLEANUP);
 
 	free_cache (p);
@@ -1021,6 +1023,8 @@ EGLPNUM_TYPENAME_QSLIB_INTERFACE int EGLPNUM_TYPENAME_QSadd_ranged_rows (
 	rval = EGLPNUM_TYPENAME_ILLlib_addrows (p->lp, p->basis, num, rmatcnt, rmatbeg,
 												 rmatind, rmatval, rhs, sense, range,
 												 names, &(p->factorok));
+	if (rval)
+		p->factorok = 0;						/* rows may have been added and removed again */
 	CHECKRVALG (rval, CLEANUP);
 
 	if (p->factorok == 1 && p->basis->rownorms)
@@ -1090,6 +1094,8 @@ EGLPNUM_TYPENAME_QSLIB_INTERFACE int EGLPNUM_TYPENAME_QSadd_rows (
 	rval = EGLPNUM_TYPENAME_ILLlib_addrows (p->lp, p->basis, num, rmatcnt, rmatbeg,
 												 rmatind, rmatval, rhs, sense, 0, names,
 												 &(p->factorok));
+	if (rval)
+		p->factorok = 0;						/* rows may have been added and removed again */
 	CHECKRVALG (rval, CLEANUP);
 
 	if (p->factorok == 1 && p->basis->rownorms)
